@@ -742,6 +742,9 @@ func (t *Teamserver) EventListenerError(ListenerName string, Error error) {
 	t.EventBroadcast("", pk)
 
 	// also remove the listener from the init packages.
+	t.EventsMutex.Lock()
+	defer t.EventsMutex.Unlock()
+
 	for EventID := range t.EventsList {
 		if t.EventsList[EventID].Head.Event == packager.Type.Listener.Type {
 			if t.EventsList[EventID].Body.SubEvent == packager.Type.Listener.Add {
@@ -816,10 +819,13 @@ func (t *Teamserver) EventAppend(event packager.Package) []packager.Package {
 
 	// some sanity check
 	if event.Head.Event == 0 {
-		return t.EventsList
+		return t.eventsSnapshot()
 	}
 
 	if event.Head.OneTime != "true" {
+		t.EventsMutex.Lock()
+		defer t.EventsMutex.Unlock()
+
 		t.EventsList = append(t.EventsList, event)
 		return append(t.EventsList, event)
 	}
@@ -827,14 +833,25 @@ func (t *Teamserver) EventAppend(event packager.Package) []packager.Package {
 	return nil
 }
 
+// eventsSnapshot returns a copy of the retained events
+func (t *Teamserver) eventsSnapshot() []packager.Package {
+	t.EventsMutex.Lock()
+	defer t.EventsMutex.Unlock()
+
+	return append([]packager.Package(nil), t.EventsList...)
+}
+
 func (t *Teamserver) EventRemove(EventID int) []packager.Package {
+	t.EventsMutex.Lock()
+	defer t.EventsMutex.Unlock()
+
 	t.EventsList = append(t.EventsList[:EventID], t.EventsList[EventID+1:]...)
 
 	return append(t.EventsList[:EventID], t.EventsList[EventID+1:]...)
 }
 
 func (t *Teamserver) SendAllPackagesToNewClient(ClientID string) {
-	for _, Package := range t.EventsList {
+	for _, Package := range t.eventsSnapshot() {
 		err := t.SendEvent(ClientID, Package)
 		if err != nil {
 			logger.Error("error while sending info to client("+ClientID+"): ", err)
